@@ -12,27 +12,3 @@ macro_rules! vassert {
 fn stub_format(_: std::fmt::Arguments<'_>) -> String {
   String::new()
 }
-#[allow(dead_code)]
-fn stub_today_local() -> crate::temporal::date::FeelDate {
-  crate::temporal::date::FeelDate::new(2020, 1, 1)
-}
-#[allow(dead_code)]
-fn stub_local_offset(_d: (i32, u32, u32), _t: (u32, u32, u32, u32)) -> Option<i32> {
-  if kani::any() {
-    let o: i32 = kani::any();
-    kani::assume(o > -86400 && o < 86400);
-    Some(o)
-  } else {
-    None
-  }
-}
-#[allow(dead_code)]
-fn stub_zone_offset(_z: &str, _d: (i32, u32, u32), _t: (u32, u32, u32, u32)) -> Option<i32> {
-  if kani::any() {
-    let o: i32 = kani::any();
-    kani::assume(o > -86400 && o < 86400);
-    Some(o)
-  } else {
-    None
-  }
-}
